@@ -2,7 +2,7 @@
    Only statements closed by `exact`; proofs live in Avoid/CertDijkstra.v, Avoid/RefRouter.v, Avoid/Blocking.v. *)
 From Adapt Require Import Num.Qaux Geom.GeomSpec Gen.Geometry Avoid.SegPolyModel Avoid.SegPoly
      Avoid.CertDijkstraModel Avoid.CertDijkstra Avoid.CertDijkstraTotal Avoid.RefRouterModel Avoid.RefRouter
-     Avoid.RefRouterTotal Avoid.Blocking.
+     Avoid.RefRouterTotal Avoid.Blocking Avoid.RefRouterVertexOnlyModel Avoid.RefRouterVertexOnly.
 From Adapt Require Graph.AStar.
 Local Open Scope Z_scope.
 
@@ -119,3 +119,12 @@ Theorem C04_astar_exhausted_unreachable
   forall v c, AStar.walk V succs s v c -> exists x, g v = Some x.
 Proof. exact (AStar.astar_exhausted_unreachable V eq_dec succs h s). Qed.
 Print Assumptions C04_astar_exhausted_unreachable.
+
+(* ---- the state (previous vertex, vertex) is necessary with a segment penalty: the same search with one label per vertex
+        (route_taut_vertex_only, the selector of the check's family "corner reachable both ways round its obstacle") returns a
+        strictly dearer route than the optimum of the taut class on a concrete scene (demonstration scene of seeded change C04-4) *)
+Theorem C04_vertex_only_search_refuted :
+  exists pen shapes s d p1 c1 p2 c2,
+    0 < pen /\ route_taut pen shapes s d = Route p1 c1 /\ route_taut_vertex_only pen shapes s d = Route p2 c2 /\ c1 < c2.
+Proof. exact vertex_only_search_refuted. Qed.
+Print Assumptions C04_vertex_only_search_refuted.
